@@ -135,6 +135,10 @@ VARIABLES pid,        \* index of the input (register number)
           siteOrder,  \* environment: iteration order of every other set of names (aligned with u.sites)
           listing,    \* environment: dir path -> order the file system gave (as taken so far)
           outdir,     \* environment: "fresh" | "reused" | "sameproc" (fresh directory, second run of its process) |
+                      \* "reusedaborted" (the directory holds what a run over the same input left when it ABORTED while one of
+                      \* its pages was being rendered: the pages written so far, one of them partial, no summary page) |
+                      \* "reusedcss" (the directory holds the result of a run that differed only in the bytes - not the
+                      \* length - of extra.css in the --template-dir; only with var.tpl) |
                       \* "afterabort" (fresh directory; the process first ran a build that ABORTED part-way through its
                       \* pages - a directory sitting at the path of a page: IsADirectoryError in _writeDocsFor)
           projname,   \* System.projectname as a sequence of root ids (<<0>> = the given name)
@@ -166,7 +170,7 @@ ById(a, b) == a.id < b.id
 Identity(ents) == SortSeq(ents, ById)
 \* in the "prev" phase the environment is the reference one (bound: see notes/C18.md)
 ListChoices(path) == IF phase = "prev" \/ Source = "file" THEN {}
-                     ELSE IF Len(roots) <= PermuteUpTo /\ outdir \notin {"sameproc", "afterabort"} /\ var.permute THEN SetToSeqs(Rng(DirRec(path).ents))
+                     ELSE IF Len(roots) <= PermuteUpTo /\ outdir \notin {"sameproc", "afterabort", "reusedaborted", "reusedcss"} /\ var.permute THEN SetToSeqs(Rng(DirRec(path).ents))
                      ELSE {Identity(DirRec(path).ents)}
 FileListing(path) ==
   LET k == CHOOSE i \in DOMAIN u.dirs : u.dirs[i].path = path IN FileRuns[pid].listing[k]
@@ -182,13 +186,16 @@ Init ==
           /\ u = Universe
           /\ roots = EnumProjects[pid].roots /\ named = EnumProjects[pid].named /\ var = EnumProjects[pid].var
           /\ outdir \in {"fresh"} \cup (IF Len(EnumProjects[pid].roots) <= ReuseUpTo THEN {"reused"} ELSE {})
-                                   \cup (IF Len(EnumProjects[pid].roots) <= SameProcUpTo /\ EnumProjects[pid].var.permute THEN {"sameproc", "afterabort"} ELSE {})
+                                   \* the histories of a process / of a directory: single-root inputs without --project-name
+                                   \cup (IF Len(EnumProjects[pid].roots) <= SameProcUpTo /\ EnumProjects[pid].var.permute /\ ~EnumProjects[pid].named
+                                         THEN {"sameproc", "afterabort", "reusedaborted"} \cup (IF EnumProjects[pid].var.tpl THEN {"reusedcss"} ELSE {})
+                                         ELSE {})
      ELSE /\ pid \in 1..NProjects
           /\ u = FileRuns[pid].u
           /\ roots = FileRuns[pid].roots /\ named = FileRuns[pid].named /\ var = FileRuns[pid].var
           /\ outdir = FileRuns[pid].outdir
   /\ clock \in (IF EpochFixes(var) THEN {1} ELSE {1, 2})     \* two runs never start in the same second
-  /\ phase = IF outdir = "reused" THEN "prev" ELSE "cur"
+  /\ phase = IF outdir \in {"reused", "reusedaborted", "reusedcss"} THEN "prev" ELSE "cur"
   /\ pc = "add" /\ nroot = 0 /\ stack = <<>> /\ mods = <<>>
   /\ setOrder = <<>> /\ siteOrder = <<>> /\ listing = <<>> /\ projname = <<>>
   /\ out = <<>>
@@ -287,9 +294,11 @@ PageFile(m) == IF Single /\ m = <<Eff[1]>> THEN <<0, 0>> ELSE <<1>> \o m      \*
 Written ==
   LET pages == IF var.pages = "summary" THEN {}            \* --html-summary-pages (driver.py: writeSummaryPages only)
                ELSE {PageFile(mods[i]) : i \in DOMAIN mods}
-      files == pages \cup Summary \cup (IF Single THEN {<<2, Eff[1]>>} ELSE {<<0, 0>>})
+      \* static templates are written with open('wb') (StaticTemplate.write): <<3, 0>> = extra.css of the --template-dir
+      files == pages \cup Summary \cup (IF Single THEN {<<2, Eff[1]>>} ELSE {<<0, 0>>}) \cup (IF var.tpl THEN {<<3, 0>>} ELSE {})
   IN [f \in files |->
         IF f[1] = 2 THEN [pn |-> <<>>, bt |-> <<>>, body |-> <<<<0, 0>>>>]     \* symlink target
+        ELSE IF f[1] = 3 THEN [pn |-> <<>>, bt |-> <<>>, body |-> <<<<IF phase = "prev" /\ outdir = "reusedcss" THEN 2 ELSE 1>>>>]
         ELSE IF f = <<0, 5>> THEN [pn |-> projname, bt |-> BuildTime, body |-> mods]             \* allobjects order
         ELSE IF f = <<0, 0>> /\ ~Single THEN [pn |-> projname, bt |-> BuildTime, body |-> <<RootKinds>>]
         ELSE IF f \in pages THEN [pn |-> projname, bt |-> BuildTime, body |-> <<<<IdBase, SidebarBase>>>> \o SitesOf(ModuleOfPage(f))]
@@ -298,9 +307,14 @@ Written ==
 Overlay(old, new) ==
   [f \in (DOMAIN old) \cup (DOMAIN new) |-> IF f \in DOMAIN new THEN new[f] ELSE old[f]]
 
+\* what an aborted run leaves: the object pages (writeIndividualFiles comes first), the last one partial (<<9>>)
+Aborted == LET w == Written
+               pg == {f \in DOMAIN w : f[1] = 1 \/ (f = <<0, 0>> /\ Single)}
+               last == CHOOSE f \in pg : \A g \in pg : Len(g) <= Len(f)
+           IN [f \in pg |-> IF f = last THEN [w[f] EXCEPT !.body = <<<<9>>>>] ELSE w[f]]
 Write ==
   /\ pc = "write"
-  /\ out' = Overlay(out, Written)
+  /\ out' = Overlay(out, IF phase = "prev" /\ outdir = "reusedaborted" THEN Aborted ELSE Written)
   /\ IF phase = "prev"
      THEN /\ phase' = "cur" /\ pc' = "add" /\ nroot' = 0 /\ mods' = <<>> /\ listing' = <<>>
           /\ setOrder' = <<>> /\ siteOrder' = <<>> /\ projname' = <<>>
